@@ -24,7 +24,10 @@ MSS = 512
 
 def plan(tier, seed):
     quick = tier == "quick"
-    cfgs = [dict(kind="sink", L=6 if quick else 7)]
+    cfgs = [dict(kind="sink", L=6 if quick else 7),
+            # segments far ahead of the gap (beyond any 64 KiB window), recording options switched off
+            dict(kind="sink", L=6 if quick else 7, segs=[0, 1, 130, 131]),
+            dict(kind="sink", L=5 if quick else 6, flags=1)]
     for cc in ("reno", "cubic"):
         for delays in ([1, 1], [1, 3], [3, 5]):
             for est in (0.25, 0.5, 4):
@@ -42,6 +45,11 @@ def plan(tier, seed):
     for cc in ("reno", "cubic"):
         for size in (1, 2, 4):
             cfgs.append(dict(kind="e2e", cc=cc, delays=[1, 1], est=1 + 2.0 ** -24, size=size, K=6))
+    # flow ids at and above the ACK class offset (10000); a sink that records nothing
+    for cc in ("reno", "cubic"):
+        cfgs.append(dict(kind="e2e", cc=cc, delays=[1, 1], est=0.5, size=2, K=8, fid=10000))
+        cfgs.append(dict(kind="e2e", cc=cc, delays=[1, 1], est=4, size=3, K=8, fid=20007))
+        cfgs.append(dict(kind="e2e", cc=cc, delays=[1, 1], est=0.5, size=2, K=8, flags=1))
     # two connections side by side in one program (state shared between senders would couple them)
     for cc in ("reno", "cubic"):
         for size in ((2, 4) if quick else (2, 3, 4, 6)):
@@ -65,7 +73,8 @@ def execute(ch, cfg):
 def exec_sink(ch, cfg):
     res = Result()
     env = Environment()
-    sink = TCPSink(env)
+    sink = TCPSink(env, rec_arrivals=False, absolute_arrivals=False, rec_waits=False, rec_flow_ids=False) if cfg.get("flags") else TCPSink(env)
+    segs = cfg.get("segs", [0, 1, 2, 3])
     acks = []
 
     class Out:
@@ -76,10 +85,10 @@ def exec_sink(ch, cfg):
     seq = []
     prev = 0
     for i in range(cfg["L"]):
-        c = ch.choose(5, lambda c: "segment %s" % ("stop" if c == 0 else (c - 1)), free=True)
+        c = ch.choose(5, lambda c: "segment %s" % ("stop" if c == 0 else segs[c - 1]), free=True)
         if c == 0:
             break
-        k = c - 1
+        k = segs[c - 1]
         seq.append(k)
         n0 = len(acks)
         try:
@@ -150,14 +159,14 @@ def exec_e2e(ch, cfg):
     res = Result()
     env = Environment()
     size = cfg["size"] * MSS
-    flow = Flow(flow_id=0, src="s", dst="d", start_time=0, finish_time=10 ** 9, size=size)
+    flow = Flow(flow_id=cfg.get("fid", 0), src="s", dst="d", start_time=0, finish_time=10 ** 9, size=size)
     cc = TCPReno() if cfg["cc"] == "reno" else TCPCubic()
     log = []
     tag = "TCP(%s,est=%s)" % (cfg["cc"], "short" if cfg["est"] < 1 else "long")
     err = None
     try:
         sender = TCPPacketGenerator(env, flow=flow, cc=cc, element_id="s", rtt_estimate=cfg["est"])
-        sink = TCPSink(env)
+        sink = TCPSink(env, rec_arrivals=False, rec_waits=False) if cfg.get("flags") else TCPSink(env)
         data = Path(env, ch, "data", cfg["delays"][0], sink, cfg["K"], log)
         ack = Path(env, ch, "ack", cfg["delays"][1], sender, cfg["K"], log)
         sender.out = data
